@@ -199,7 +199,7 @@ func runChain(c *ChainCase) (interface{}, error) {
 		if err != nil {
 			return map[string]interface{}{"harness": fmt.Sprintf("honest op %d %s: %v", i+1, h.Op, err)}, nil
 		}
-		if i%2 == 1 { // every other token travels as bytes
+		if (i+int(c.Emb%2))%2 == 1 { // every other token travels as bytes (which ones depends on the case: both parities occur)
 			ser, _ := t.Serialize()
 			t, err = biscuit.Unmarshal(ser)
 			if err != nil {
